@@ -737,6 +737,95 @@ def run_public_case(case, memos=None):
 
 
 # --------------------------------------------------------------------------
+# 2b. dataset API on top of the caches: the same history with warm caches
+#     and with the cache cleared before every call must give equal results
+# --------------------------------------------------------------------------
+def gen_dsapi_case(rng):
+    n = rng.randint(12, 40)
+    deform = [rng.randint(1, 160) / 8.0 for _ in range(n)]
+    area = [rng.randint(80, 800) / 8.0 for _ in range(n)]
+    for _ in range(rng.randint(0, 3)):
+        deform[rng.randint(0, n - 1)] = rng.choice(["nan", "inf"])
+    ops = []
+    nouts = 0
+    for _ in range(rng.randint(25, 60)):
+        r = rng.random()
+        if r < 0.15 and nouts:
+            ops.append(["mut", rng.randint(0, nouts - 1)])
+            continue
+        if r < 0.35:
+            lo = rng.randint(80, 500) / 8.0
+            ops.append(["filter", lo, lo + rng.randint(0, 400) / 8.0,
+                        rng.random() < 0.3])
+            continue
+        sc = rng.choice(["linear", "linear", "log"])
+        if r < 0.6:
+            ops.append(["kde_scatter", rng.choice(["histogram", "gauss", "multivariate",
+                                                   "none"]), sc, rng.random() < 0.3])
+        elif r < 0.75:
+            ops.append(["kde_contour", rng.choice(["histogram", "gauss"]), sc])
+        else:
+            ops.append(["scatter", rng.choice([0, 1, 3, 5, n, n + 5]), sc,
+                        rng.random() < 0.5])
+        nouts += 1
+    return dict(kind="dsapi", deform=deform, area=area, ops=ops)
+
+
+def _play_dsapi(case, clear):
+    np = _np()
+    import dclab
+    import dclab.cached as cached
+    ds = dclab.new_dataset({"deform": np.array([float(v) for v in case["deform"]]),
+                            "area_um": np.array([float(v) for v in case["area"]])})
+    outs = []
+    res = []
+    cached.Cache.clear_cache()
+    for op in case["ops"]:
+        if clear:
+            cached.Cache.clear_cache()
+        if op[0] == "mut":
+            if op[1] < len(outs):
+                mutate_in_place(outs[op[1]])
+            res.append(None)
+            continue
+        if op[0] == "filter":
+            ds.config["filtering"]["area_um min"] = op[1]
+            ds.config["filtering"]["area_um max"] = op[2]
+            ds.config["filtering"]["remove invalid events"] = op[3]
+            ds.apply_filter()
+            res.append(None)
+            continue
+        if op[0] == "kde_scatter":
+            kw = dict(xax="area_um", yax="deform", kde_type=op[1], xscale=op[2])
+            if op[3]:
+                kw["positions"] = [np.array([20.0, 30.5, 50.0]), np.array([0.5, 1.5, 2.0])]
+            ok, v = safe_call(ds.get_kde_scatter, **kw)
+        elif op[0] == "kde_contour":
+            ok, v = safe_call(ds.get_kde_contour, xax="area_um", yax="deform",
+                              xacc=8.0, yacc=1.0, kde_type=op[1], xscale=op[2])
+        else:
+            ok, v = safe_call(ds.get_downsampled_scatter, xax="area_um", yax="deform",
+                              downsample=op[1], xscale=op[2], remove_invalid=True,
+                              ret_mask=op[3])
+        outs.append(v if ok else None)
+        res.append(canon(v) if ok else ("exc", v))
+    cached.Cache.clear_cache()
+    return res
+
+
+def run_dsapi_case(case):
+    warm = _play_dsapi(case, False)
+    cold = _play_dsapi(case, True)
+    fail = None
+    for i, (a, b) in enumerate(zip(warm, cold)):
+        if a != b:
+            fail = ("op %d %s: result with warm caches differs from the result "
+                    "with the cache cleared before every call" % (i, json.dumps(case["ops"][i])))
+            break
+    return dict(fail=fail, nontrivial=sum(1 for r in warm if r is not None) > 5)
+
+
+# --------------------------------------------------------------------------
 # 3. hashfile
 # --------------------------------------------------------------------------
 HF_VARIANTS = {
@@ -1305,6 +1394,8 @@ def exec_case(case, scratch, memos=None):
         return run_cache_case(case, memos)
     if k == "public":
         return run_public_case(case, memos)
+    if k == "dsapi":
+        return run_dsapi_case(case)
     if k == "hashfile":
         return run_hashfile_case(case, scratch)
     if k == "lcl":
@@ -1341,6 +1432,8 @@ def run(run):
         cases.append(gen_cache_case(rng, t, big=True))
     for _ in range(60 if t else 6):
         cases.append(gen_public_case(rng))
+    for _ in range(60 if t else 8):
+        cases.append(gen_dsapi_case(rng))
     for _ in range(120 if t else 14):
         cases.append(gen_hashfile_case(rng, t))
     for _ in range(600 if t else 80):
@@ -1412,7 +1505,7 @@ def run(run):
 def shrink(run, failure):
     case = failure["case"]
     kind = case.get("kind")
-    if kind not in ("cache", "public", "hashfile", "lcl", "obj") or "ops" not in case:
+    if kind not in ("cache", "public", "dsapi", "hashfile", "lcl", "obj") or "ops" not in case:
         return failure
 
     def fails(c):
@@ -1449,7 +1542,7 @@ def search(run, broken):
     rng = run.rng
     n = 400 if run.thorough else 120
     gens = [lambda: gen_cache_case(rng, True), lambda: gen_cache_case(rng, True, big=True),
-            lambda: gen_public_case(rng),
+            lambda: gen_public_case(rng), lambda: gen_dsapi_case(rng),
             lambda: gen_hashfile_case(rng, True), lambda: gen_lcl_case(rng, True)]
     for i in range(n):
         c = gens[i % len(gens)]()
